@@ -463,6 +463,28 @@ Proof.
     + rewrite <- E. cbn [seg_prefix beq andb]. apply seg_prefix_app.
 Qed.
 
+Lemma all_dotdot_head (l : list seg) :
+  Forall (fun c => c = s_dotdot) l -> l <> [] -> exists r, l = s_dotdot :: r.
+Proof. intros H Hne. destruct l as [|x r]; [contradiction|]. inversion H; subst. exists r. reflexivity. Qed.
+
+Lemma clean_leading_dotdot name :
+  no_dotdot (csegs name) = false -> clean name = s_dotdot \/ has_prefix (clean name) DDS = true.
+Proof.
+  intros H. pose proof (csegs_shape name) as Hs. apply shape_split in Hs as (n & u & E & Hn & Hu & Hr).
+  assert (Ec : csegs name = rev u ++ rev n).
+  { rewrite <- (rev_involutive (csegs name)), E, rev_app_distr. reflexivity. }
+  destruct u as [|u0 u'].
+  - exfalso. cbn in Ec. rewrite Ec in H. rewrite proper_no_dotdot in H; [discriminate|]. apply Forall_rev. exact Hn.
+  - assert (Habs : is_abs name = false).
+    { destruct (is_abs name); [specialize (Hr eq_refl); discriminate|reflexivity]. }
+    assert (Hru : Forall (fun c => c = s_dotdot) (rev (u0 :: u'))) by (apply Forall_rev; exact Hu).
+    destruct (all_dotdot_head _ Hru) as [r Er].
+    { intros E0. apply (f_equal (@length seg)) in E0. rewrite rev_length in E0. discriminate. }
+    rewrite clean_render, Habs, Ec, Er. cbn [app render].
+    destruct (r ++ rev n) as [|y t]; [left; reflexivity|right].
+    change (join_slash (s_dotdot :: y :: t)) with (DOT :: DOT :: SL :: join_slash (y :: t)). reflexivity.
+Qed.
+
 Section UnpackD.
   Variable cfg : ucfg.
   Variable req : bytes -> bool.
@@ -474,12 +496,23 @@ Section UnpackD.
   Lemma ds_noslash' : Forall noslash ds.
   Proof. apply csegs_noslash. Qed.
 
+  Lemma not_skipped_no_dotdot name :
+    beq (clean name) s_dotdot || has_prefix (clean name) DDS = false -> no_dotdot (csegs name) = true.
+  Proof.
+    intros H. destruct (no_dotdot (csegs name)) eqn:E; [reflexivity|].
+    apply orb_false_iff in H as [H1 H2].
+    destruct (clean_leading_dotdot name E) as [Ec|Ec].
+    - rewrite Ec, beq_refl in H1. discriminate.
+    - congruence.
+  Qed.
+
   Lemma full_path_zone name :
-    no_dotdot (csegs name) = true ->
+    beq (clean name) s_dotdot || has_prefix (clean name) DDS = false ->
     exists cs, Forall proper cs /\ Forall noslash (ds ++ cs) /\
                join2 (u_dir cfg) (clean name) = render true (ds ++ cs).
   Proof.
-    intros H. exists (filter properb (split_slash (clean name))). split; [apply filter_proper|]. split.
+    intros H0. pose proof (not_skipped_no_dotdot name H0) as H.
+    exists (filter properb (split_slash (clean name))). split; [apply filter_proper|]. split.
     - apply Forall_app. split; [apply ds_noslash'|apply filter_split_noslash].
     - apply join2_zone; [exact dir_ok | apply clean_nonempty | apply clean_no_dotdot; exact H].
   Qed.
@@ -490,10 +523,12 @@ Section UnpackD.
   Proof.
     intros HI HD H. pose proof ds_proper' as Hdp.
     assert (Hsame : Inv ds fs /\ Only ds fs fs) by (split; [exact HI|apply Only_refl]).
-    unfold entry_in_D in HD. apply andb_true_iff in HD as [HDn HDl].
-    destruct (full_path_zone (e_name e) HDn) as (cs & Hcp & Hcn & Hfull).
+    unfold entry_in_D in HD. rename HD into HDl.
     unfold unpack_entry in H. cbn zeta in H.
     destruct (u_max cfg <? e_size e)%Z; [injection H as <- _; exact Hsame|].
+    destruct (beq (clean (e_name e)) s_dotdot || has_prefix (clean (e_name e)) DDS) eqn:Hskip;
+      [injection H as <- _; exact Hsame|].
+    destruct (full_path_zone (e_name e) Hskip) as (cs & Hcp & Hcn & Hfull).
     rewrite Hfull in H.
     destruct (is_some (klstat fs (render true (ds ++ cs)))); [injection H as <- _; exact Hsame|].
     destruct (negb (required req tg (render true (ds ++ cs)) (clean (e_name e)))); [injection H as <- _; exact Hsame|].
@@ -710,28 +745,6 @@ Proof.
 Qed.
 
 (* ------------------------------------------------------------------ image.go: layer scanning *)
-Lemma all_dotdot_head (l : list seg) :
-  Forall (fun c => c = s_dotdot) l -> l <> [] -> exists r, l = s_dotdot :: r.
-Proof. intros H Hne. destruct l as [|x r]; [contradiction|]. inversion H; subst. exists r. reflexivity. Qed.
-
-Lemma clean_leading_dotdot name :
-  no_dotdot (csegs name) = false -> clean name = s_dotdot \/ has_prefix (clean name) DDS = true.
-Proof.
-  intros H. pose proof (csegs_shape name) as Hs. apply shape_split in Hs as (n & u & E & Hn & Hu & Hr).
-  assert (Ec : csegs name = rev u ++ rev n).
-  { rewrite <- (rev_involutive (csegs name)), E, rev_app_distr. reflexivity. }
-  destruct u as [|u0 u'].
-  - exfalso. cbn in Ec. rewrite Ec in H. rewrite proper_no_dotdot in H; [discriminate|]. apply Forall_rev. exact Hn.
-  - assert (Habs : is_abs name = false).
-    { destruct (is_abs name); [specialize (Hr eq_refl); discriminate|reflexivity]. }
-    assert (Hru : Forall (fun c => c = s_dotdot) (rev (u0 :: u'))) by (apply Forall_rev; exact Hu).
-    destruct (all_dotdot_head _ Hru) as [r Er].
-    { intros E0. apply (f_equal (@length seg)) in E0. rewrite rev_length in E0. discriminate. }
-    rewrite clean_render, Habs, Ec, Er. cbn [app render].
-    destruct (r ++ rev n) as [|y t]; [left; reflexivity|right].
-    change (join_slash (s_dotdot :: y :: t)) with (DOT :: DOT :: SL :: join_slash (y :: t)). reflexivity.
-Qed.
-
 Lemma layer_target_contained_lemma d name real :
   clean_abs d -> layer_target d name = Some real ->
   exists cs, Forall proper cs /\ Forall noslash cs /\ real = render true (csegs d ++ cs).
@@ -1239,20 +1252,12 @@ Definition no_new_file (a b : fsmap) : bool :=
              | _ => true
              end) b.
 
-Lemma unpack_prefix_confusion_refuted_lemma :
-  exists cfg fs es,
-    clean (u_dir cfg) = u_dir cfg /\ phys_dir fs [] (csegs (u_dir cfg)) = true /\
-    only_regular es = true /\
-    file_outside (csegs (u_dir cfg)) fs (fst (unpack_all cfg W.all_req fs es)) = true.
-Proof. exists W.cfg, W.fs0, W.es_prefix. vm_compute. repeat split; reflexivity. Qed.
-
-Lemma unpack_mkdir_before_check_refuted_lemma :
-  exists cfg fs es,
-    clean (u_dir cfg) = u_dir cfg /\ phys_dir fs [] (csegs (u_dir cfg)) = true /\
-    only_regular es = true /\
-    no_new_file fs (fst (unpack_all cfg W.all_req fs es)) = true /\
-    all_changes_inside (csegs (u_dir cfg)) fs (fst (unpack_all cfg W.all_req fs es)) = false.
-Proof. exists W.cfg, W.fs0, W.es_mkdir. vm_compute. repeat split; reflexivity. Qed.
+(* regression (fix c7e8b5e1): the former witnesses "../target-evil/f" and "../../out/g" now leave
+   the file system untouched *)
+Lemma unpack_prefix_confusion_fixed_lemma :
+  unpack_all W.cfg W.all_req W.fs0 W.es_prefix = (W.fs0, false) /\
+  unpack_all W.cfg W.all_req W.fs0 W.es_mkdir = (W.fs0, false).
+Proof. vm_compute. split; reflexivity. Qed.
 
 Lemma unpack_link_escape_refuted_lemma :
   exists cfg fs es,
@@ -1261,9 +1266,28 @@ Lemma unpack_link_escape_refuted_lemma :
     links_resolve_inside (csegs (u_dir cfg)) (fst (unpack_all cfg W.all_req fs es)) = false.
 Proof. exists W.cfg, W.fs0, W.es_link. vm_compute. repeat split; reflexivity. Qed.
 
-Lemma unpack_link_write_through_refuted_lemma :
+(* what remains of the write through an escaped link after the fix: the file is refused, but
+   MkdirAll still creates the directory "target-evil" outside, THROUGH the link *)
+Lemma unpack_link_mkdir_through_refuted_lemma :
   exists cfg fs es,
     clean (u_dir cfg) = u_dir cfg /\ phys_dir fs [] (csegs (u_dir cfg)) = true /\
     forallb (fun e => no_dotdot (csegs (e_name e))) es = true /\
-    file_outside (csegs (u_dir cfg)) fs (fst (unpack_all cfg W.all_req fs es)) = true.
+    file_outside (csegs (u_dir cfg)) fs (fst (unpack_all cfg W.all_req fs es)) = false /\
+    all_changes_inside (csegs (u_dir cfg)) fs (fst (unpack_all cfg W.all_req fs es)) = false.
 Proof. exists W.cfg, W.fs0, W.es_link_write. vm_compute. repeat split; reflexivity. Qed.
+
+(* archives without link entries are contained at full strength: a corollary of D *)
+Lemma no_links_in_D es : forallb (fun e => negb (is_link_entry e)) es = true -> entries_in_D es = true.
+Proof.
+  intros H. unfold entries_in_D. apply forallb_forall. intros e He. rewrite forallb_forall in H.
+  specialize (H e He). unfold is_link_entry in H. unfold entry_in_D. destruct (e_type e); try reflexivity; discriminate.
+Qed.
+
+Lemma unpack_contained_without_links_lemma cfg req fs es :
+  clean_abs (u_dir cfg) ->
+  phys_dir fs [] (csegs (u_dir cfg)) = true -> links_safe (csegs (u_dir cfg)) fs = true ->
+  forallb (fun e => negb (is_link_entry e)) es = true ->
+  forall p, lookup fs p <> lookup (fst (unpack_all cfg req fs es)) p -> seg_prefix (csegs (u_dir cfg)) p = true.
+Proof.
+  intros Hd Hp Hl Hn. apply unpack_contained_on_D_lemma; auto. apply no_links_in_D. exact Hn.
+Qed.
